@@ -855,9 +855,9 @@ Qed.
 
 (* ------------------------------------------------------------------ one fast step = one or more slow steps *)
 Lemma lock_msteps ae (rf : M * sres) (ms : M) : simR true rf (stepS ae ms) ->
-  exists n ms', msteps ae n ms ms' (snd rf) /\ Rel true false (fst rf) ms'.
+  exists n ms', (1 <= n)%nat /\ msteps ae n ms ms' (snd rf) /\ Rel true false (fst rf) ms'.
 Proof.
-  intros [A B]. exists 1%nat, (fst (stepS ae ms)). split; [|exact B].
+  intros [A B]. exists 1%nat, (fst (stepS ae ms)). split; [apply le_n|]. split; [|exact B].
   apply msteps_one. rewrite A. destruct (stepS ae ms); reflexivity.
 Qed.
 
@@ -889,7 +889,7 @@ Proof. destruct m as [cf q o k]. destruct cf. reflexivity. Qed.
 Lemma bulk_step ae set sm krun kchar (mf ms : M) :
   Rel true false mf ms -> cref (mc mf) = None -> t_step tb (st (mc mf)) = BPop set sm krun kchar ->
   pop_ok set sm krun kchar = true ->
-  exists n ms', msteps ae n ms ms' (snd (execF ae (BPop set sm krun kchar) 0 [] mf)) /\
+  exists n ms', (1 <= n)%nat /\ msteps ae n ms ms' (snd (execF ae (BPop set sm krun kchar) 0 [] mf)) /\
                 Rel true false (fst (execF ae (BPop set sm krun kchar) 0 [] mf)) ms'.
 Proof.
   intros H Hcr Hb Hok.
@@ -936,7 +936,7 @@ Proof.
       - intros ->. change (memb CR stop) with (memb 13 stop) in F1. rewrite Hs13 in F1. discriminate F1.
       - intros ->. rewrite Hs0 in F1. discriminate F1.
       - rewrite <- Ed. apply (chain_ok_resolve seqb seqb_eq stop d kchar c Hch2). unfold in_set. rewrite F1. apply andb_false_r. }
-    exists (length r), ms'. split; [apply msteps_C; exact T1|exact T3].
+    exists (length r), ms'. split; [destruct r; [congruence|cbn; lia]|]. split; [apply msteps_C; exact T1|exact T3].
   - (* the scalar scan *)
     destruct (Qrun (in_set set) (mq mf)) as [r q'] eqn:ER.
     destruct (run_ok _ _ _ _ ER) as (F1 & F2 & F3).
@@ -955,7 +955,7 @@ Proof.
     assert (G2 : cnt (c :: r) = 0) by (apply cnt_zero; eapply Forall_impl; [|exact G]; cbn beta; tauto).
     destruct (run_aux ae (st (mc mf)) set sm krun kchar xk Hb (c :: r) mf ms q') as (ms' & T1 & T2 & T3);
       [discriminate|exact G1|rewrite Hmq; apply F2; discriminate|exact Hpre|exact H|].
-    exists (length (c :: r)), ms'. split; [apply msteps_C; exact T1|].
+    exists (length (c :: r)), ms'. split; [cbn; lia|]. split; [apply msteps_C; exact T1|].
     unfold bulkfx in T3. rewrite G2, upd_line0 in T3. exact T3.
 Qed.
 
@@ -964,7 +964,7 @@ Hypothesis Hstep : forall s, step_ok (t_step tb s) = true.
 Hypothesis Heof : forall s, ok_body false false (t_eof tb s) = true.
 
 Lemma step_sim ae (mf ms : M) : Rel true false mf ms ->
-  exists n ms', msteps ae n ms ms' (snd (stepF ae mf)) /\ Rel true false (fst (stepF ae mf)) ms'.
+  exists n ms', (1 <= n)%nat /\ msteps ae n ms ms' (snd (stepF ae mf)) /\ Rel true false (fst (stepF ae mf)) ms'.
 Proof.
   intros H. destruct (cref (mc mf)) as [cr|] eqn:Ecr.
   - apply lock_msteps. unfold step. sync H. rewrite Ecr.
@@ -987,7 +987,7 @@ Lemma run_sim ae fuel : forall (mf ms : M), Rel true false mf ms -> snd (runF ae
   exists k ms', (forall j, runS ae (k + j) ms = (ms', snd (runF ae fuel mf))) /\ Rel true false (fst (runF ae fuel mf)) ms'.
 Proof.
   induction fuel as [|f IH]; intros mf ms H Hne; cbn [run] in *; [exfalso; apply Hne; reflexivity|].
-  destruct (step_sim ae mf ms H) as (n & ms1 & A & B).
+  destruct (step_sim ae mf ms H) as (n & ms1 & _ & A & B).
   destruct (stepF ae mf) as [mf1 r1]; cbn [fst snd] in *.
   destruct r1; try (exists n, ms1; split; [intros j; exact (A j)|exact B]).
   destruct (IH mf1 ms1 B Hne) as (k & ms' & C & D).
